@@ -180,11 +180,13 @@ fn exhaustive_unit(a: usize, b: usize, maxlen: usize, ctx: &mut Ctx) {
     }
 }
 
+const BOUNDARY_CHARS: [u32; 16] = [0x7f, 0x80, 0x7ff, 0x800, 0xd7ff, 0xe000, 0xfffd, 0xffff, 0x10000, 0x3ffff, 0x40000, 0x7ffff, 0x80000, 0xfffff, 0x100000, 0x10ffff];
+
 fn random_text(rng: &mut Rng) -> String {
     let n = rng.range(10, 400);
     let mut s = String::new();
     let pool: &[&str] = &[
-        "a", "b", "class", " ", " ", "\t", "\n", "\n", "\r\n", "\r", "\u{e9}", "\u{20ac}", "\u{1d11e}", "\u{c}", "\u{2028}", "\u{85}", "\u{b}", "\u{2029}", "x", "// c", "\"s\"", ";",
+        "a", "b", "class", " ", " ", "\t", "\n", "\n", "\r\n", "\r", "\u{e9}", "\u{20ac}", "\u{1d11e}", "\u{c}", "\u{2028}", "\u{85}", "\u{b}", "\u{2029}", "x", "// c", "\"s\"", ";", "\u{80}", "\u{7ff}", "\u{800}", "\u{ffff}", "\u{10000}", "\u{100000}", "\u{10ffff}",
     ];
     for _ in 0..n {
         s.push_str(pool[rng.below(pool.len())]);
@@ -208,6 +210,15 @@ impl Check for C10 {
                 ctx.feature("exhaustive_strings");
             }
             ctx.feature("exhaustive_strings");
+            // every character at a boundary of the UTF-8 / UTF-16 encodings (first and last code point of each
+            // encoded length and of each UTF-8 lead byte of the 4-byte range), in a few line contexts
+            for cp in BOUNDARY_CHARS {
+                let c = char::from_u32(cp).unwrap();
+                for t in [format!("{c}"), format!("a{c}b"), format!("{c}\n{c}"), format!("a\n{c}{c}b\r\n{c}x"), format!("\u{e9}{c}\u{1d11e}{c}\n")] {
+                    check_text(&t, ctx, true);
+                }
+                ctx.feature("encoding_boundary_chars");
+            }
             // corpus files: real line structures (LF), converted to CRLF and CR as well
             for f in crate::texts::corpus().iter().filter(|f| f.text.len() < 30_000) {
                 check_text(&f.text, ctx, false);
@@ -236,10 +247,10 @@ impl Check for C10 {
         }
     }
     fn rule(&self) -> String {
-        "EXHAUSTIVE: every string of length <= 5 (thorough: <= 6) over {a, space, LF, CR, U+00E9, U+20AC, U+1D11E, FF, U+2028}; for each, every char-boundary offset is converted by lsp::to_proto::position (compared with the reference (line, UTF-16 column)), converted back by lsp::from_proto::position (round trip; not demanded strictly inside a CRLF pair), LineIndex::pos_to_line/line_to_pos are compared with the reference line table, and every (line, col) with col <= width+1 is converted by from_proto::position (col past the end must give the line end; columns splitting a surrogate pair are not demanded). SAMPLED: random mixed texts of 10-400 pieces also containing NEL, VT, PS; corpus files as LF and CRLF. Reference: refpos.rs (lines end at LF/CRLF/CR only). non-trivial = text has a multi-byte char, a CR/CRLF, a non-terminator break char, or no final newline; distinct by digest of the text".into()
+        "BOUNDARY CHARACTERS: the first and last code point of every UTF-8 length, of both UTF-16 lengths and of each 4-byte lead byte (U+007F .. U+10FFFF, 16 characters), each in five line contexts, all positions. EXHAUSTIVE: every string of length <= 5 (thorough: <= 6) over {a, space, LF, CR, U+00E9, U+20AC, U+1D11E, FF, U+2028}; for each, every char-boundary offset is converted by lsp::to_proto::position (compared with the reference (line, UTF-16 column)), converted back by lsp::from_proto::position (round trip; not demanded strictly inside a CRLF pair), LineIndex::pos_to_line/line_to_pos are compared with the reference line table, and every (line, col) with col <= width+1 is converted by from_proto::position (col past the end must give the line end; columns splitting a surrogate pair are not demanded). SAMPLED: random mixed texts of 10-400 pieces also containing NEL, VT, PS; corpus files as LF and CRLF. Reference: refpos.rs (lines end at LF/CRLF/CR only). non-trivial = text has a multi-byte char, a CR/CRLF, a non-terminator break char, or no final newline; distinct by digest of the text".into()
     }
     fn floors(&self, tier: Tier) -> Vec<(&'static str, u64)> {
-        vec![("exhaustive_units", 81), ("exhaustive_strings", tier.pick(66_000, 590_000)), ("col_past_line_end", 10_000), ("class:multibyte", 10_000), ("class:crlf", 1000), ("class:non-terminator-break-char", 1000), ("no_final_newline", 1000)]
+        vec![("exhaustive_units", 81), ("exhaustive_strings", tier.pick(66_000, 590_000)), ("col_past_line_end", 10_000), ("class:multibyte", 10_000), ("class:crlf", 1000), ("class:non-terminator-break-char", 1000), ("no_final_newline", 1000), ("encoding_boundary_chars", 16)]
     }
     fn exhaustive(&self, tier: Tier) -> Option<String> {
         let n: u64 = (0..=tier.pick(5u32, 6u32)).map(|l| 9u64.pow(l)).sum();
